@@ -9,9 +9,22 @@ import Oas3Model.Driver.Interop
 import Oas3Model.Driver.Graph
 import Oas3Model.Driver.Registry
 import Oas3Model.Driver.Cli
+import Oas3Model.Driver.Defaults
 open Lean Oas3.Driver
 
-def allOps : List (String × Handler) := Oas3.Driver.Naming.ops ++ Oas3.Driver.Sse.ops ++ Oas3.Driver.Resp.ops ++ Oas3.Driver.Path.ops ++ Oas3.Driver.Client.ops ++ Oas3.Driver.Server.ops ++ Oas3.Driver.Interop.ops ++ Oas3.Driver.Graph.ops ++ Oas3.Driver.Registry.ops ++ Oas3.Driver.Cli.ops
+def allOps : List (String × Handler) := List.flatten [
+  Oas3.Driver.Naming.ops,
+  Oas3.Driver.Sse.ops,
+  Oas3.Driver.Resp.ops,
+  Oas3.Driver.Path.ops,
+  Oas3.Driver.Client.ops,
+  Oas3.Driver.Server.ops,
+  Oas3.Driver.Interop.ops,
+  Oas3.Driver.Graph.ops,
+  Oas3.Driver.Registry.ops,
+  Oas3.Driver.Cli.ops,
+  Oas3.Driver.Defaults.ops,
+  []]
 
 def handleLine (line : String) : String :=
   match Json.parse line with
